@@ -1633,8 +1633,20 @@ bool Node::ingest_manifest(const std::string& manifest_uri) {
 
     {
         SchedulerLock lock(scheduler_mutex_);
-        manifest_cache_[chunk_id_to_string(manifest.chunk_id)] = manifest;
-        dht_.publish_shards(manifest.chunk_id, manifest.shards, manifest.threshold, manifest.total_shares, *ttl);
+        const auto key = chunk_id_to_string(manifest.chunk_id);
+        // A URI carries the expiry in whole seconds and the remaining TTL is truncated once more, so a copy of a
+        // manifest this node already holds (a control FETCH of its own chunk re-ingests it) describes a slightly
+        // shorter life than the cached original.  Replacing the original with it made the key shares lapse before
+        // the chunk they belong to; keep what is already known when it is the same manifest and lives at least as long.
+        const auto cached = manifest_cache_.find(key);
+        const bool already_known = cached != manifest_cache_.end() &&
+                                   cached->second.chunk_hash == manifest.chunk_hash &&
+                                   cached->second.nonce.bytes == manifest.nonce.bytes &&
+                                   cached->second.expires_at >= manifest.expires_at;
+        if (!already_known) {
+            manifest_cache_[key] = manifest;
+            dht_.publish_shards(manifest.chunk_id, manifest.shards, manifest.threshold, manifest.total_shares, *ttl);
+        }
     }
     update_swarm_plan(manifest);
     return true;
